@@ -272,6 +272,12 @@ func (nfc *NfcSession) SelectAid(aid []byte) (selected bool, err error) {
 func (nfc *NfcSession) ReadBinaryFromOffset(offset, length int) ([]byte, error) {
 	slog.Debug("ReadBinaryFromOffset", "offset", offset, "length", length)
 
+	// P1-P2 carry a 15-bit offset: bit 8 of P1 set selects a short EF identifier instead
+	// (larger offsets would need READ BINARY with odd INS, which is not implemented)
+	if offset < 0 || offset > 0x7FFF {
+		return nil, fmt.Errorf("[ReadBinaryFromOffset] Offset cannot be encoded in P1-P2 (offset:%d)", offset)
+	}
+
 	var capdu *CApdu = NewCApdu(0x00, INS_READ_BINARY, byte(offset/256), byte(offset%256), nil, length)
 
 	rapdu, err := nfc.DoAPDU(capdu, fmt.Sprintf("Read Binary (offset:%d, length:%d)", offset, length))
